@@ -9,6 +9,7 @@ Request:  `run <nvars> <stmt> <stmt> …` where a statement token is one of
   `sw:<x>:<px>:<y>:<py>`    swap x[px], y[py]
   `up:<y>:<x>:<i>:<atom>`   y = x{i = atom}
   `ca:<y>:<x>:<atom>`       y = x append atom
+  `apo:<x>:<p>:<y>:<q>`     x[p] append= pop y[q]    (old x[p] is read before the pop)
 and rhs is `n` | `i<int>` | `v<var>` | `l<atom>,<atom>,…` | `r<atom>*<count>`.
 Response: `<impl>\t<spec>\t<diag>`; impl/spec = `ok d1;d2;…` with one dump per statement,
 `+` (completed) or `!` (raised) followed by the canonical values of all variables joined by `|`;
@@ -48,6 +49,7 @@ def parseStmt (tok : String) : Option Stmt :=
   | ["sw", x, px, y, py] => do pure (.swap (← x.toNat?) (← parsePath px) (← y.toNat?) (← parsePath py))
   | ["up", y, x, i, a] => do pure (.update (← y.toNat?) (← x.toNat?) (← i.toInt?) (← parseAtom a))
   | ["ca", y, x, a] => do pure (.callAppend (← y.toNat?) (← x.toNat?) (← parseAtom a))
+  | ["apo", x, p, y, q] => do pure (.appendPop (← x.toNat?) (← parsePath p) (← y.toNat?) (← parsePath q))
   | _ => none
 
 def dump (ok : Bool) (ts : List Store.Tree) : String :=
